@@ -33,7 +33,7 @@ Section Group.
   Variables metric_ok lname_ok lvalue_ok dur_ok expr_ok tmpl_pint tmpl_prom dur_zero : string -> bool.
   Variables str_ok int_ok null_ok : node -> bool.
   Hypothesis H_str : forall n, n_kind n = KScalar -> n_tag n <> nullTag -> str_ok n = true.
-  Hypothesis H_null : forall n, n_kind n = KScalar -> n_tag n = nullTag -> null_text (n_value n) -> null_ok n = true.
+  Hypothesis H_null : forall n, n_kind n = KScalar -> n_tag n = nullTag -> null_ok n = true.
   Hypothesis H_tmpl : forall s, tmpl_pint s = true -> tmpl_prom s = true.
   Hypothesis H_lname_empty : lname_ok "" = false.
   Hypothesis H_lvalue_empty : lvalue_ok "" = true.
@@ -199,12 +199,19 @@ Section Group.
   Definition group_guard (gn : node) : Prop :=
     plain_node gn /\
     forall k v, In (k, v) (mapping_nodes gn) ->
-      plain_below k /\ (n_value k = "rules" -> rules_guard v) /\ (n_value k <> "rules" -> plain_below v).
+      plain_below k /\ (n_value k = "rules" -> rules_guard v) /\ (n_value k <> "rules" -> leaf v).
+
+  (** a value that is a plain subtree or an alias of one; when pint insists on a scalar NODE (name, interval, query_offset,
+      limit: `entry.val.Kind != yaml.ScalarNode`) it is the plain one *)
+  Lemma leaf_scalar_node x : leaf x -> n_kind x = KScalar -> plain_node x.
+  Proof.
+    intros (t & [[-> _]|(K & _)] & Hp) Kx; [exact (plain_self t Hp)|congruence].
+  Qed.
 
   Lemma plain_group_guard gn : plain_below gn -> group_guard gn.
   Proof.
     intros H. split; [exact (plain_self gn H)|]. intros k v Hin. destruct (plain_pairs gn k v H Hin) as [A B].
-    split; [exact A|]. split; [|intros _; exact B]. intros _. split; [exact (plain_self v B)|].
+    split; [exact A|]. split; [|intros _; exact (plain_leaf v B)]. intros _. split; [exact (plain_self v B)|].
     intros rn Hrn. left. apply plain_rule_guard. eapply plain_below_content; eassumption.
   Qed.
 
@@ -280,11 +287,16 @@ Section Group.
                    | None => True end).
       { destruct (find_key "labels" ps) as [[kl vl]|] eqn:Fl; [|exact I].
         destruct (find_key_In _ _ _ _ Fl) as [Hin Ek]. destruct (F1 kl vl Hin) as [Hok _].
-        destruct (proj2 Hp kl vl Hin) as (_ & _ & Hpv'). assert (Hpv : plain_below vl) by (apply Hpv'; rewrite Ek; discriminate).
-        pose proof (plain_self vl Hpv) as Hv.
+        destruct (proj2 Hp kl vl Hin) as (_ & _ & Hpv'). assert (Hlf : leaf vl) by (apply Hpv'; rewrite Ek; discriminate).
+        (* fix 17469da: `labels: *anchor` is read through the anchor, like the loader does *)
+        destruct Hlf as (vt & Hsee & Hpv). destruct (sees_deref vl vt Hsee) as [Dv Av]. pose proof (sees_tag vl vt Hsee) as Tv.
+        pose proof (plain_self vt Hpv) as Hv.
         unfold group_pair_ok in Hok. rewrite (node_value_noalias kl (Hna (kl, vl) Hin)), Ek in Hok.
         destruct Hok as [(E & _)|[([E|E] & _)|[(E & _)|[(_ & T & Hval & Hbad)|(E & _)]]]]; try discriminate E.
-        pose proof (plain_map_tag vl Hv T) as Kv. rewrite (deref_plain vl (proj1 Hv)) in Hval, Hbad.
+        rewrite Tv in T. rewrite Dv in Hval, Hbad.
+        rewrite (dec_strmap_deref str_ok null_ok vl) by (now rewrite Dv). rewrite Dv.
+        clear Dv Tv Hsee. rename vl into vl0. rename vt into vl.
+        pose proof (plain_map_tag vl Hv T) as Kv.
         assert (Hne : forall k v, In (k, v) (mapping_nodes vl) -> n_value k <> "").
         { intros k v Hkv E. destruct (bad_group_label_none _ Hbad k v Hkv) as (L1 & _). rewrite E in L1. congruence. }
         assert (Ht : is_tag (n_tag vl) mapTag = true) by (rewrite T; reflexivity).
@@ -304,21 +316,21 @@ Section Group.
         destruct X as ([name x] & Hin & Herr). apply in_map_iff in Hin. destruct Hin as ([k x'] & E & Hin).
         inversion E; subst name x'. clear E. change (key_text (k, x)) with (n_value k) in Herr.
         destruct (F1 k x Hin) as [Hok _].
-        assert (Hx' : n_value k <> "rules" -> plain_node x).
-        { intros Hk. destruct (proj2 Hp k x Hin) as (_ & _ & Hpx). exact (plain_self x (Hpx Hk)). }
+        assert (Hx' : n_value k <> "rules" -> n_kind x = KScalar -> plain_node x).
+        { intros Hk Kx. destruct (proj2 Hp k x Hin) as (_ & _ & Hpx). exact (leaf_scalar_node x (Hpx Hk) Kx). }
         unfold group_pair_ok in Hok. rewrite (node_value_noalias k (Hna (k, x) Hin)) in Hok.
         assert (Hsc : forall tag, scalar_with_tag x tag = true -> n_kind x = KScalar /\ n_tag x = tag).
         { intros tag Hs. unfold scalar_with_tag in Hs. apply andb_true_iff in Hs. destruct Hs as [A B].
           split; [now apply kind_eqb_eq|now apply String.eqb_eq]. }
         destruct Hok as [(E & Hs & Hne)|[([E|E] & Hs & Hd)|[(E & Hs & Hi)|[(E & T & Hval & Hbad)|(E & Ht)]]]]; rewrite E in Herr; cbn in Herr;
-          try (assert (Hx : plain_node x) by (apply Hx'; rewrite E; discriminate)).
-        - destruct (Hsc _ Hs) as [Kx Tx].
+          try (assert (Hx : n_kind x = KScalar -> plain_node x) by (apply Hx'; rewrite E; discriminate)).
+        - destruct (Hsc _ Hs) as [Kx Tx]. specialize (Hx Kx).
           rewrite (dec_string_scalar str_ok null_ok H_str H_null x Hx Kx), Tx in Herr. cbn in Herr. discriminate.
-        - destruct (Hsc _ Hs) as [Kx Tx].
+        - destruct (Hsc _ Hs) as [Kx Tx]. specialize (Hx Kx).
           rewrite (dec_duration_scalar str_ok null_ok H_str H_null dur_ok x Hx Kx), Tx in Herr. cbn in Herr. rewrite Hd in Herr. discriminate.
-        - destruct (Hsc _ Hs) as [Kx Tx].
+        - destruct (Hsc _ Hs) as [Kx Tx]. specialize (Hx Kx).
           rewrite (dec_duration_scalar str_ok null_ok H_str H_null dur_ok x Hx Kx), Tx in Herr. cbn in Herr. rewrite Hd in Herr. discriminate.
-        - destruct (Hsc _ Hs) as [Kx Tx]. unfold dec_int in Herr. rewrite (deref_plain x (proj1 Hx)), Kx in Herr.
+        - destruct (Hsc _ Hs) as [Kx Tx]. specialize (Hx Kx). unfold dec_int in Herr. rewrite (deref_plain x (proj1 Hx)), Kx in Herr.
           rewrite (null_scalar_tag null_ok x) in Herr by (rewrite Tx; discriminate). rewrite Hi in Herr. discriminate.
         - assert (Fl : find_key "labels" ps = Some (k, x)).
           { destruct (find_key "labels" ps) as [[k' x']|] eqn:Fl.
@@ -339,11 +351,11 @@ Section Group.
       { destruct (F6 (or_introl eq_refl)) as [Y|[]]. exact Y. }
       destruct (find_key "name" ps) as [[kn vn]|] eqn:Fn; [|exfalso; exact (find_none_iff _ _ Fn Hname_in)].
       destruct (find_key_In _ _ _ _ Fn) as [Hinn Ekn]. destruct (F1 kn vn Hinn) as [Hokn _].
-      destruct (proj2 Hp kn vn Hinn) as (_ & _ & Hpvn'). assert (Hpvn : plain_below vn) by (apply Hpvn'; rewrite Ekn; discriminate).
-      pose proof (plain_self vn Hpvn) as Hvn.
+      destruct (proj2 Hp kn vn Hinn) as (_ & _ & Hpvn'). assert (Hlfn : leaf vn) by (apply Hpvn'; rewrite Ekn; discriminate).
       unfold group_pair_ok in Hokn. rewrite (node_value_noalias kn (Hna (kn, vn) Hinn)), Ekn in Hokn.
       destruct Hokn as [(_ & Hs & Hne)|[([E|E] & _)|[(E & _)|[(E & _)|(E & _)]]]]; try discriminate E.
       unfold scalar_with_tag in Hs. apply andb_true_iff in Hs. destruct Hs as [Ks Ts]. apply kind_eqb_eq in Ks. apply String.eqb_eq in Ts.
+      pose proof (leaf_scalar_node vn Hlfn Ks) as Hvn.
       assert (Dn : dec_string str_ok null_ok vn = DOk (n_value vn)).
       { rewrite (dec_string_scalar str_ok null_ok H_str H_null vn Hvn Ks), Ts. reflexivity. }
       unfold dec_group. rewrite Hdec, Herrs. eexists. split; [reflexivity|]. cbn [pg_name pg_labels pg_rules].
@@ -408,8 +420,10 @@ Section Doc.
   Variable plines : list string -> node -> nat -> nat * nat.
   Variables metric_ok lname_ok lvalue_ok dur_ok expr_ok tmpl_pint tmpl_prom dur_zero : string -> bool.
   Variables str_ok int_ok null_ok : node -> bool.
+  (** pint's own oracle for the strict pre-pass; the final theorem instantiates both with the same function (Proofs/C01_full.v) *)
+  Variable null_okP : node -> bool.
   Hypothesis H_str : forall n, n_kind n = KScalar -> n_tag n <> nullTag -> str_ok n = true.
-  Hypothesis H_null : forall n, n_kind n = KScalar -> n_tag n = nullTag -> null_text (n_value n) -> null_ok n = true.
+  Hypothesis H_null : forall n, n_kind n = KScalar -> n_tag n = nullTag -> null_ok n = true.
   Hypothesis H_tmpl : forall s, tmpl_pint s = true -> tmpl_prom s = true.
   Hypothesis H_lname_empty : lname_ok "" = false.
   Hypothesis H_lvalue_empty : lvalue_ok "" = true.
@@ -435,7 +449,7 @@ Section Doc.
   Qed.
 
   Notation blocks := (strict_blocks expr_ok dur_ok tmpl_pint).
-  Notation PS := (parse_strict plines metric_ok lname_ok lvalue_ok dur_ok int_ok null_ok false).
+  Notation PS := (parse_strict plines metric_ok lname_ok lvalue_ok dur_ok int_ok null_okP false).
   Notation accepts := (prom_accepts str_ok int_ok null_ok expr_ok dur_ok dur_zero metric_ok lname_ok lvalue_ok tmpl_prom).
 
   Lemma blocks_false_inv f :
@@ -473,7 +487,7 @@ Section Doc.
     unfold parse_strict in *. cbn [parse_strict_loop] in *.
     set (L := firstn nl lines) in *.
     destruct (too_big d) eqn:TB; [discriminate Hfe|].
-    destruct (strict_prepass null_ok d) as [e0|] eqn:PP; [discriminate Hfe|].
+    destruct (strict_prepass null_okP d) as [e0|] eqn:PP; [discriminate Hfe|].
     destruct (parse_groups plines metric_ok lname_ok lvalue_ok dur_ok int_ok false L d) as [e|gs] eqn:PGs; [discriminate Hfe|].
     cbn [app f_groups] in Hgs. clear Hfe.
     unfold parse_groups in PGs.
@@ -544,15 +558,15 @@ Section Doc.
     - destruct yerr as [e|].
       + exfalso. destruct (blocks_false_inv _ Hb) as [Hfe _]. unfold parse_strict in Hfe. cbn [parse_strict_loop] in Hfe.
         destruct (too_big d); [discriminate Hfe|].
-        destruct (strict_prepass null_ok d); [discriminate Hfe|].
+        destruct (strict_prepass null_okP d); [discriminate Hfe|].
         destruct (parse_groups _ _ _ _ _ _ _ _ d); cbn in Hfe; discriminate.
       + exact (doc_sound d nl (Hg d nl eq_refl) Hb).
     - exfalso. destruct (blocks_false_inv _ Hb) as [Hfe _]. unfold parse_strict in Hfe. cbn [parse_strict_loop] in Hfe.
       destruct (too_big d); [discriminate Hfe|].
-      destruct (strict_prepass null_ok d); [discriminate Hfe|].
+      destruct (strict_prepass null_okP d); [discriminate Hfe|].
       destruct (parse_groups _ _ _ _ _ _ _ _ d); [discriminate Hfe|].
       destruct (too_big d2); [discriminate Hfe|].
-      destruct (strict_prepass null_ok d2); [discriminate Hfe|].
+      destruct (strict_prepass null_okP d2); [discriminate Hfe|].
       destruct (parse_groups _ _ _ _ _ _ _ _ d2); [discriminate Hfe|].
       revert Hfe. apply strict_loop_multi; [lia|]. cbn. discriminate.
   Qed.
